@@ -146,3 +146,24 @@ Definition ri_instances : list (string * rc_pub * list string) := [
 (* every row an instance was labelled from is a row of the table *)
 Definition ri_rows_in_table : bool :=
   forallb (fun i => forallb (fun r => existsb (String.eqb r) ri_access_table) (snd i)) ri_instances.
+
+(* Lock discipline (Race.rc_lstep): every access to the shard map d of cachex happens between
+   futures.Lock() and futures.Unlock() of the same shard (Load, Get2, Set, removeRotted); the
+   plain reads of WaitClose.state / closeChan in Close and checkInitSlow happen under
+   wc.mutex. As an instance: 4 threads, sections of reads (false) / writes (true) of the map
+   (location 1). *)
+Definition ri_lock_rows : list string := [
+  "cachex/cache_impl.go:cacheImpl.Load|R:futures S:futures.Lock R:d C:getFutureStatus if( ){ C:newFuture W:d[] } S:futures.Unlock if( ){ C:sendJob } switch{ case{ C:fetchIfFutureStatusGood ret } case{ ret } case{ ret } } ret";
+  "cachex/cache_impl.go:cacheImpl.Get2|R:futures S:futures.Lock R:d S:futures.Unlock C:getFutureStatus switch{ case{ C:fetchIfFutureStatusGood C:Get2 ret } case{ C:Get2 ret } } ret";
+  "cachex/cache_impl.go:cacheImpl.Set|R:futures S:futures.Lock C:newFuture C:setValue W:d[] S:futures.Unlock";
+  "cachex/cache_impl.go:cacheImpl.removeRotted|for{ R:futures S:futures.Lock for{ R:d C:getFutureStatus if( ){ R:d } } S:futures.Unlock }";
+  "loom/wait_close.go:WaitClose.Close|if( A:LoadInt32:state ){ S:mutex.Lock defer{ func{ S:mutex.Unlock } } if( R:state ){ if( R:state ){ close:closeChan } else{ W:closeChan } defer{ A:StoreInt32:state } if( ){ C:callback ret } } } ret";
+  "loom/wait_close.go:WaitClose.checkInitSlow|S:mutex.Lock if( R:state ){ W:closeChan A:StoreInt32:state } S:mutex.Unlock"
+].
+Definition ri_shard_map_progs : list (list (list (bool * nat))) :=
+  [ [[(false, 1); (true, 1)]; [(false, 1)]];      (* Load: read d[key], maybe write d[key]; again *)
+    [[(false, 1)]];                               (* Get2: read d[key] *)
+    [[(true, 1)]];                                (* Set: write d[key] *)
+    [[(false, 1); (true, 1)]] ]%nat.               (* removeRotted: range over d, delete *)
+Definition ri_lock_rows_in_table : bool :=
+  forallb (fun r => existsb (String.eqb r) ri_access_table) ri_lock_rows.
